@@ -27,9 +27,11 @@ RULE = (
     "placeholders) and template items with vars files (post-processing template, template finalizer) at top "
     "level and nested (nest transformation, nest post-processing, nested finalizer; depth <=3); opt-in keys "
     "(allow_external_sources, allow_template_vars, vars_allowed_paths) injected with truthy values at a seeded "
-    "subset of nodes incl. the document root; history of <=7 ops {Load via from_dict / from_yaml (with or "
+    "subset of nodes incl. the document root; history of <=8 ops {Load via from_dict / from_yaml (with or "
     "without source_path) / resolver-from-file with caller opt-ins, SetEnv of the two documented variables to "
-    "unset/0/1/true/TRUE/yes/empty, Convert}; fakes answer with data or faults (non-zero exit, timeout, "
+    "unset/0/1/true/TRUE/yes/empty, Add (the pipelines of two loads combined with '+' in either order or "
+    "sum(), then converted), Convert}; file loads name the pipeline file absolutely or by a bare relative name "
+    "from its directory; fakes answer with data or faults (non-zero exit, timeout, "
     "connection error, oversized body, garbage, missing file). non-trivial = >=1 smuggled key on the path to "
     "an item that would perform I/O; distinct = distinct (item kinds with nesting depth, injected key "
     "positions, load path, opt-ins, env values at each op, outcome classes)"
@@ -259,12 +261,19 @@ def generate(streams: core.Streams, tier: str) -> dict:
         loaded.append(pid)
         if gen.chance(s, 0.5):
             ops.append({"op": "SetEnv", "var": gen.pick(s, [EXT_ENV, VARS_ENV]), "value": gen.pick(s, ENV_VALUES)})
+    if len(loaded) == 2 and gen.chance(s, 0.35):
+        # round 9: the two pipelines are also used combined ('+' in either order or sum()); a capability
+        # the caller gave to one load must not reach the items of the other
+        parts = list(loaded) if gen.chance(s, 0.5) else list(reversed(loaded))
+        ops.append({"op": "Add", "pipeline": "S0", "parts": parts, "via": gen.pick(s, ["+", "sum"])})
+        loaded.append("S0")
+        loaded.append("S0")
     for _ in range(s.randint(1, 3)):
         ops.append({"op": "Convert", "pipeline": gen.pick(s, loaded)})
         if gen.chance(s, 0.4):
             ops.append({"op": "SetEnv", "var": gen.pick(s, [EXT_ENV, EXT_ENV, VARS_ENV]), "value": gen.pick(s, ENV_VALUES)})
     if gen.chance(s, 0.3):
-        ops.append({"op": "Load", "pipeline": gen.pick(s, loaded), "via": "from_dict",
+        ops.append({"op": "Load", "pipeline": gen.pick(s, [x for x in loaded if x != "S0"]), "via": "from_dict",
                     "allow_external_sources": False, "allow_template_vars": False, "vars_allowed_paths": None})
     for op in ops:
         if op["op"] == "Load" and op["via"] != "from_dict" and gen.chance(f, 0.15):
@@ -275,6 +284,10 @@ def generate(streams: core.Streams, tier: str) -> dict:
                 f"smuggled: !!python/object/new:subprocess.Popen [[\"echo\", \"yamltag_{n}\"]]",
             ])
             op["yaml_tag_where"] = gen.pick(f, ["vars", "root"])
+    for op in ops:
+        # round 9: the pipeline file is named by a bare relative path (working directory = its directory)
+        if op["op"] == "Load" and op["via"] in ("from_yaml_source_path", "resolver_file") and gen.chance(f, 0.3):
+            op["relative"] = True
     fake_faults = {}
     for n in range(1, c.n + 1):
         if gen.chance(f, 0.2):
@@ -598,11 +611,19 @@ def execute(scenario: dict) -> dict:
                     elif op["via"] == "from_yaml":
                         objs[pid] = ProcessingPipeline.from_yaml(text(), **args)
                     elif op["via"] == "from_yaml_source_path":
-                        objs[pid] = ProcessingPipeline.from_yaml(text(), source_path=src_path, **args)
+                        if op.get("relative"):
+                            with _cwd(os.path.dirname(src_path)):
+                                objs[pid] = ProcessingPipeline.from_yaml(text(), source_path=os.path.basename(src_path), **args)
+                        else:
+                            objs[pid] = ProcessingPipeline.from_yaml(text(), source_path=src_path, **args)
                     else:
                         with open(src_path, "w") as fh:
                             fh.write(text())
-                        objs[pid] = ProcessingPipelineResolver().resolve([src_path])
+                        if op.get("relative"):
+                            with _cwd(os.path.dirname(src_path)):
+                                objs[pid] = ProcessingPipelineResolver().resolve([os.path.basename(src_path)])
+                        else:
+                            objs[pid] = ProcessingPipelineResolver().resolve([src_path])
                     return "loaded"
 
                 if op["via"] in ("from_yaml_source_path", "resolver_file") and grant["dirs"] is None:
@@ -617,10 +638,36 @@ def execute(scenario: dict) -> dict:
                 log.append({"op": k, "res": res})
                 outcome.append("L:" + ("ok" if "ok" in res else res["exc"]))
                 core.merge_counts(faults, {"load:" + op["via"]: 1})
+                if op.get("relative"):
+                    core.merge_counts(faults, {"load:pipeline_file_named_by_bare_relative_path": 1})
                 # secondary oracle: a vars file that may not be executed -> Sigma security error
                 v2 = _check_load_denial(sc, op, grant, env_at[k], res, sim)
                 if v2 and violation is None:
                     violation = v2
+            elif kind == "Add":
+                a, b = op["parts"]
+                objs.pop(op["pipeline"], None)
+                loads.pop(op["pipeline"], None)
+                if a in objs and b in objs and a in loads and b in loads:
+                    def combine(a=a, b=b, op=op):
+                        objs[op["pipeline"]] = (objs[a] + objs[b]) if op["via"] == "+" else sum([objs[a], objs[b]])
+                        return "combined"
+
+                    res = world.capture(combine)
+                    if "ok" in res:
+                        da, db = loads[a]["dirs"], loads[b]["dirs"]
+                        # the grant under which the combination is *used*: nothing the caller gave to either
+                        # load is withheld (external sources are decided per item owner, see _permitted)
+                        loads[op["pipeline"]] = {"ext": False, "vars": loads[a]["vars"] or loads[b]["vars"],
+                                                 "dirs": None if da is None or db is None else da + db, "op": k}
+                        executed[op["pipeline"]] = executed.get(a, set()) | executed.get(b, set())
+                        probes["pipelines_of_two_loads_combined"] = 1
+                        if loads[a]["ext"] != loads[b]["ext"]:
+                            probes["combined_pipelines_differ_in_external_sources_grant"] = 1
+                    outcome.append("A:" + ("ok" if "ok" in res else str(res.get("exc"))))
+                    core.merge_counts(faults, {"compose:" + op["via"]: 1})
+                else:
+                    outcome.append("A:skip")
             elif kind == "Convert":
                 pid = op["pipeline"]
                 if pid not in objs:
@@ -633,7 +680,7 @@ def execute(scenario: dict) -> dict:
                 log.append({"op": k, "res": res})
                 oc = "ok" if "ok" in res and not res["errors"] else (res.get("exc") or res["errors"][0]["exc"])
                 outcome.append("C:" + oc)
-                v2 = _check_convert_denial(sc, pid, loads.get(pid), env_at[k], res, sim, k)
+                v2 = _check_convert_denial(sc, pid, loads.get(pid), env_at[k], res, sim, k) if pid in sc["pipelines"] else None
                 if v2 and violation is None:
                     violation = v2
             # ---- capability model over the events of this op
@@ -720,6 +767,21 @@ def _permitted(sc: dict, ev: dict, env: dict, loads: dict, load_of_op: dict, tok
         return True, "granted"
     # anything the audit hook or the socket fakes saw that no fake accounted for
     return False, "capability reached through a route that is never permitted in this world"
+
+
+class _cwd:
+    """working directory for the duration of one load (restored whatever happens)"""
+
+    def __init__(self, path: str):
+        self.path = path
+
+    def __enter__(self):
+        self.old = os.getcwd()
+        os.chdir(self.path)
+
+    def __exit__(self, *exc):
+        os.chdir(self.old)
+        return False
 
 
 def _single(sc: dict, pid: str, kinds: tuple[str, ...]) -> dict | None:
